@@ -266,6 +266,51 @@ def _captures(body, l, depth=14):
     return out
 
 
+def _higher_order_condition(prog, fn, test, c):
+    """the three column conditions written once: `fn f(expr, plan) { column_condition(expr, plan, |used, produced| used.OP(produced)) }`.
+    `test` is the little closure (already known to make the one set operation `c` with the right negation). To be shown: it applies
+    the operation to its first parameter with its second as argument; f hands (expr, plan, test) to a helper in that order; and the
+    closure the helper returns calls the function it was given on (columns used by expr, columns produced by plan)."""
+    from tmpl import origin_locals
+    if not (c.args[0]['k'] != 'const' and c.args[1]['k'] != 'const'
+            and origin_locals(test, c.args[0]['pl']['l'], depth=6) & {2, 3} == {2} and origin_locals(test, c.args[1]['pl']['l'], depth=6) & {2, 3} == {3}):
+        return False
+    root = prog.body(fn, raw=True)
+    if root is None:
+        return False
+    cl = {st['lhs']['l'] for _, st in root.stmts() if st['s'] == 'assign' and st['rv'].get('rv') == 'agg' and st['rv'].get('def') == test.name}
+    for hc in root.calls:
+        names = [n for n in prog.callee_bodies(hc) if n.startswith('planner::rules::plan::')]
+        if not names or len(hc.args) < 3:
+            continue
+        k = [i for i, a in enumerate(hc.args) if a['k'] != 'const' and cl & origin_locals(root, a['pl']['l'], depth=4)]
+        p_expr = [i for i, a in enumerate(hc.args) if a['k'] != 'const' and 1 in origin_locals(root, a['pl']['l'], depth=4)]
+        p_plan = [i for i, a in enumerate(hc.args) if a['k'] != 'const' and 2 in origin_locals(root, a['pl']['l'], depth=4)]
+        if len(k) != 1 or len(p_expr) != 1 or len(p_plan) != 1:
+            continue
+        H = prog.body(names[0], raw=True)
+        drv = prog.body(names[0] + '::{closure#0}', raw=True)
+        if H is None or drv is None:
+            continue
+        packed = next((st['rv']['ops'] for _, st in H.stmts() if st['s'] == 'assign' and st['rv'].get('rv') == 'agg' and st['rv'].get('def') == drv.name), None)
+        if packed is None:
+            continue
+
+        def cap_of(param):      # the capture of the returned closure that is fed from parameter `param` of the helper
+            return {j for j, o in enumerate(packed) if o['k'] != 'const' and (param + 1) in origin_locals(H, o['pl']['l'], depth=6)}
+        ce, cp, ct = cap_of(p_expr[0]), cap_of(p_plan[0]), cap_of(k[0])
+        ind = [x for x in drv.calls if x.t.get('func') and x.t['func']['k'] != 'const']
+        prod = [x for x in drv.calls if (x.fn or '') == 'planner::rules::plan::produced']
+        if len(ind) != 1 or len(prod) != 1 or len(ce) != 1 or len(cp) != 1 or len(ct) != 1 or len(ind[0].args) != 2:
+            continue
+        x = ind[0]
+        if _captures(drv, x.t['func']['pl']['l']) == ct and _captures(drv, x.args[0]['pl']['l']) == ce \
+                and cp <= _captures(drv, x.args[1]['pl']['l']) and not (ce & _captures(drv, x.args[1]['pl']['l'])) \
+                and _captures(drv, prod[0].args[1]['pl']['l']) == cp:
+            return True
+    return False
+
+
 def _match_true_variants(body):
     """variants of planner::Expr for which a `matches!` closure returns true"""
     out = set()
@@ -303,6 +348,8 @@ def plan_condition_assumptions(ctx, prog):
         if ok:   # receiver = columns used by capture 0 (the expression); argument = columns produced by capture 1 (the plan)
             ok = _captures(b, c.args[0]['pl']['l']) == {0} and 1 in _captures(b, c.args[1]['pl']['l']) and \
                 _captures(b, prod[0].args[1]['pl']['l']) == {1}
+        elif c is not None and has_not(b) == neg and not prod:
+            ok = _higher_order_condition(prog, P + fn, b, c)
         ctx.ob(R3, f'{fn.split("::")[1]}·shape', bool(ok),
                f'{fn}: expected `{"!" if neg else ""}used(expr).{pat.split("::")[-1].rstrip("$")}(produced(plan))`', [b.loc],
                what=f'the side condition {fn} no longer has the shape the law check models; every rule guarded by it is checked against a '
